@@ -119,8 +119,32 @@ def result_equal(g, a, b):
     return None
 
 
+def paired_objects(g, a, b, limit):
+    """Corresponding object occurrences of two structurally equal values (lock-step walk)."""
+    out = []
+    stack = [(a, b)]
+    while stack and len(out) < limit:
+        x, y = stack.pop()
+        if isinstance(x, g.ParsedObject) and isinstance(y, g.ParsedObject) and type(x) is type(y):
+            out.append((x, y))
+            for f in type(x)._fields:
+                stack.append((getattr(x, f), getattr(y, f)))
+        elif isinstance(x, (list, tuple)) and isinstance(y, (list, tuple)) and len(x) == len(y):
+            stack.extend(zip(x, y))
+        elif isinstance(x, dict) and isinstance(y, dict) and len(x) == len(y):
+            stack.extend(zip(x.values(), y.values()))
+    return out
+
+
 def check(rec, g, root, cbs, case):
     rec.case()
+    # values may have been hashed before they are transformed (hashes are memoised on the objects)
+    if rec.rng.random() < 0.5:
+        for x in forest.ref_visit(g, root)[:30]:
+            try:
+                hash(x)
+            except TypeError:
+                pass
     before = forest.snapshot(g, root)
     log_real, log_ref = [], []
     try:
@@ -143,6 +167,18 @@ def check(rec, g, root, cbs, case):
     why = result_equal(g, want, got)
     if why is not None:
         rec.violation('transform:result-differs', 'result vs reference rewrite', case, 'equal structure and metadata', why)
+    else:
+        # the rebuilt nodes are values of their own: they hash like the reference's freshly built ones
+        for a, b2 in paired_objects(g, want, got, 40):
+            try:
+                ha, hb = hash(a), hash(b2)
+            except TypeError:
+                continue
+            rec.count('result_hashes_compared')
+            if ha != hb:
+                rec.violation('transform:result-hash-differs', 'hash of result nodes vs freshly built reference nodes', case,
+                              ha, hb)
+                break
     if not cbs and got is not root:
         rec.violation('transform:no-callbacks', 'transform without callbacks', case, 'the input itself', 'a different object')
     if cbs and all(cb.__name__ == 'identity' for cb in cbs):
